@@ -213,7 +213,20 @@ func c15Body(r *Run) {
 		}
 		return "t." + name
 	}
-	r.Describe("processor kind %d (0 command, 1 event, 2 event group), proto=%v, name generator %d, shared topic=%v, AckOnUnknownEvent=%v, AckCommandHandlingErrors=%v", procKind, isProto, nameGen, sharedTopic, ackUnknown, ackCmdErrors)
+	// in some runs the bus derives the topic from the value as well (per-tenant topics): the processors are then fed
+	// from the per-name topics all the same (phase 2 re-routes the captured messages)
+	valueTopics := t.Chance(1, 3)
+	busTopic := func(name string, v any) string {
+		if !valueTopics {
+			return topicFor(name)
+		}
+		tenant := 0
+		if m, merr := marsh.Marshal(v); merr == nil {
+			tenant = len(m.Payload) % 3
+		}
+		return fmt.Sprintf("%s/tenant-%d", topicFor(name), tenant)
+	}
+	r.Describe("processor kind %d (0 command, 1 event, 2 event group), proto=%v, name generator %d, shared topic=%v, AckOnUnknownEvent=%v, AckCommandHandlingErrors=%v, value-dependent bus topics=%v", procKind, isProto, nameGen, sharedTopic, ackUnknown, ackCmdErrors, valueTopics)
 
 	// ---- phase 1: the bus
 	capture := NewScriptedPublisher(r, "bus-capture")
@@ -224,12 +237,12 @@ func c15Body(r *Run) {
 	var err error
 	if procKind == 0 {
 		cbus, err = cqrs.NewCommandBusWithConfig(capture, cqrs.CommandBusConfig{
-			GeneratePublishTopic: func(p cqrs.CommandBusGeneratePublishTopicParams) (string, error) { return topicFor(p.CommandName), nil },
+			GeneratePublishTopic: func(p cqrs.CommandBusGeneratePublishTopicParams) (string, error) { return busTopic(p.CommandName, p.Command), nil },
 			Marshaler:            marsh,
 		})
 	} else {
 		ebus, err = cqrs.NewEventBusWithConfig(capture, cqrs.EventBusConfig{
-			GeneratePublishTopic: func(p cqrs.GenerateEventPublishTopicParams) (string, error) { return topicFor(p.EventName), nil },
+			GeneratePublishTopic: func(p cqrs.GenerateEventPublishTopicParams) (string, error) { return busTopic(p.EventName, p.Event), nil },
 			Marshaler:            marsh,
 		})
 	}
@@ -258,8 +271,8 @@ func c15Body(r *Run) {
 			continue
 		}
 		c := calls[0]
-		if c.Topic != topicFor(name) {
-			r.Fail("C15.R1", "the bus published on a topic other than the generated one", "%T: %q, expected %q", v, c.Topic, topicFor(name))
+		if c.Topic != busTopic(name, v) {
+			r.Fail("C15.R1", "the bus published on a topic other than the generated one", "%T %v: %q, expected %q", v, v, c.Topic, busTopic(name, v))
 		}
 		m := c.Msgs[0]
 		if marsh.NameFromMessage(m) != name {
@@ -269,7 +282,7 @@ func c15Body(r *Run) {
 		if uerr := marsh.Unmarshal(m, back); uerr != nil || !c15Equal(back, v) {
 			r.Fail("C15.R1", "the published payload does not deserialise to the value sent", "%T: %v", v, uerr)
 		}
-		sent = append(sent, &c15Sent{typ: typ, value: v, name: name, topic: c.Topic, msg: m})
+		sent = append(sent, &c15Sent{typ: typ, value: v, name: name, topic: topicFor(name), msg: m})
 	}
 	// extra messages: malformed payloads with a known name, foreign messages without a name
 	if t.Chance(1, 2) {
